@@ -2773,13 +2773,16 @@ public:
     constexpr bool
         operator()(get_bit_tag, const choice_index_t n) const noexcept
     {
-        return bits & (1 << n);
+        // shift in `T`, not in `int`: choices of 32/64-bit sets can have
+        // indexes >= 31
+        return (bits & static_cast<T>(T{1} << n)) != 0;
     }
 
     SBEPP_CPP14_CONSTEXPR void
         operator()(set_bit_tag, const choice_index_t n, const bool b) noexcept
     {
-        bits = ((bits & ~(1 << n)) | (b << n));
+        const auto mask = static_cast<T>(T{1} << n);
+        bits = static_cast<T>(b ? (bits | mask) : (bits & ~mask));
     }
 
     //! @brief Tests if underlying values are equal
